@@ -441,6 +441,7 @@ def cls_call(body,t,depth,payload=False,field=None):
     if cp.endswith('::buckets'): return 'BUCKETS'
     if cp in PASS_THROUGH: return cls(body,t['args'][0],depth+1)
     if cp.endswith('wrapping_sub'): return 'WRAPSUB(%s)'%cls(body,t['args'][0],depth+1)
+    if cp.endswith('saturating_sub') or cp.endswith('checked_sub'): return cls(body,t['args'][0],depth+1)  # result <= first operand
     if 'find_insert_slot' in cp or cp.endswith('find_inner') or cp.endswith('::find'): return 'MASKED:find'
     if cp.endswith('prepare_insert_slot'): return 'MASKED:prep' if field in (None,'0') else 'OTHER'
     if cp.endswith('Range as Iterator>::next') or cp.endswith('Range<usize> as core::iter::traits::iterator::Iterator>::next') or n=='next': return 'ITER:%s'%cp.split('::')[-3:]
@@ -533,4 +534,73 @@ def r_index_bounded(F, V):
                                 else:
                                     R.violation("%s|eq-index" % p, body, "the bucket index handed to the equality callback has class %s (not masked): the callback dereferences bucket(index)" % c, line=line_of(body, bb=i))
     R.floor("index sinks classified", n, {"posctl": 0}.get(F.cfg, 40))
+    return R
+
+
+# --------------------------------------------------------------------- R-SAME-GROUP
+
+def r_same_group(F, V):
+    """is_in_same_group decides whether an element may stay where it is during an in-place rehash. Probe groups are
+    unaligned windows that start at the probe start of the hash, so the group number of a position must be
+    ((pos - start) mod buckets) / WIDTH with start = the (masked, otherwise unmodified) probe position of the hash."""
+    R = Result("R-SAME-GROUP", F.cfg)
+    root = "raw::RawTableInner::is_in_same_group"
+    body = F.bodies.get(root)
+    if body is None:
+        R.undec("%s not found" % root)
+        return R
+    W = _width(F)
+    bodies = [body] + [F.bodies[c] for c in F.reachable_fns(root) if c.startswith(root + "::{closure")]
+    # closure upvars -> creator operands
+    upmap = {}
+    for i, k, s in body.stmts():
+        if s["k"] == "assign" and s["rv"]["k"] == "aggregate" and s["rv"]["kind"] == "closure":
+            upmap[s["rv"]["closure"]] = s["rv"]["ops"]
+    divs = 0
+    problems = []
+    for b in bodies:
+        for i, k, s in b.stmts():
+            if s["k"] == "assign" and s["rv"]["k"] == "binop" and s["rv"]["op"] == "Div" and s["rv"]["b"]["k"] == "const" and s["rv"]["b"].get("val") == W:
+                divs += 1
+                S = sources(b, s["rv"]["a"], transparent=_TP_NO_NUM)
+                ws = [(bb, t) for c, lst in S.calls.items() if c.endswith("wrapping_sub") for bb, t in lst]
+                if not ws:
+                    problems.append("the position is divided by the group width without first subtracting the probe start of the hash: aligned blocks are compared instead of the key's own (unaligned) probe groups")
+                    continue
+                if not (S.has_load("bucket_mask") and "BitAnd" in S.binops):
+                    problems.append("(pos - start) is not reduced modulo the table size with `& bucket_mask`")
+                for bb, t in ws:
+                    sub = t["args"][1]
+                    c = None
+                    if b is not body and sub["k"] in ("copy", "move"):
+                        # resolve an upvar (*_1).i (possibly through a reference) to the creator's operand
+                        r, path = b.root_of_place(sub["p"])
+                        idx = [x for x in path if x.isdigit()]
+                        ops = upmap.get(b.path)
+                        if r == 1 and idx and ops and int(idx[0]) < len(ops):
+                            o = ops[int(idx[0])]
+                            if o["k"] in ("copy", "move"):
+                                # the captured value is usually `&local`: classify the referent
+                                tgt = o
+                                for _ in range(4):
+                                    dd = body.single_def(tgt["p"]["l"]) if not tgt["p"].get("proj") else None
+                                    if dd and dd[0] == "stmt" and dd[3]["rv"]["k"] == "ref":
+                                        tgt = {"k": "copy", "p": dd[3]["rv"]["p"]}
+                                    elif dd and dd[0] == "stmt" and dd[3]["rv"]["k"] == "use" and dd[3]["rv"]["op"]["k"] in ("copy", "move") and not dd[3]["rv"]["op"]["p"].get("proj"):
+                                        tgt = dd[3]["rv"]["op"]
+                                    else:
+                                        break
+                                c = cls(body, tgt)
+                    if c is None:
+                        c = cls(b, sub)
+                    if not (c == "MASKED" or c.startswith("MASKED:pos")):
+                        problems.append("the probe start subtracted from the position has class %s: it must be exactly the masked probe position of the hash (probe_seq(hash).pos), not a rounded or otherwise altered value" % c)
+    key = root + "|relative-to-probe-start"
+    if divs == 0:
+        problems.append("no division by Group::WIDTH found")
+    if problems:
+        R.violation(key, body, "; ".join(sorted(set(problems))) + " (an element is then left in a slot its lookups never reach: present keys are reported absent and can be inserted twice)")
+        R.inst(key, "; ".join(sorted(set(problems))), "violation", True, where(body))
+    else:
+        R.inst(key, "group number = ((pos - probe_seq(hash).pos) & bucket_mask) / WIDTH for both positions", "ok", True, where(body))
     return R
